@@ -123,10 +123,11 @@ PROPS = {
         'not_decided': ['the key constructors (std::string building)', 'BuildValue toData / decoder loops and StringList (only the three payload predicates they branch on are under contract)', 'BinaryEncoder / BinaryDecoder scalar codecs'],
     },
     'C17': {
-        'units': ['ninja_lex'],
+        'units': ['ninja_lex', 'shellesc'],
         'design_ref': 'DESIGN.md section 4, C17',
         'claim': 'Ninja lexer: a keyword kind is produced exactly when the token bytes are the whole keyword, every byte value '
-                 '0x00-0xFF is returned as itself (end of file only at the true end), identifier-specific mode never yields keywords',
+                 '0x00-0xFF is returned as itself (end of file only at the true end), identifier-specific mode never yields keywords; BOUNDED (not counted): '
+                 'a shell-escaped path of up to 3 (quick) bytes, read by a model of POSIX sh word syntax, is exactly one word equal to the path',
         'not_decided': ['agreement of scoping / variable evaluation with Ninja itself (needs Ninja as oracle)', 'include/subninja scoping', 'the parser'],
     },
     'C18': {
